@@ -404,6 +404,8 @@ def prove_function(world, make_models, contract, timeout_ms=None, arg_terms_out=
                 want['%s%s' % (pname, '' if i == 0 else '#%d' % i)] = t
             args[pname] = ctx.load(v)
         cx = Cx(ctx, args, ctx.heap0, None)
+        arg0 = {n: list(v.terms()) for n, v in args.items() if isinstance(v, (VList, VDict))}
+        cx.arg0 = arg0
         ctx.cx0 = cx
         if c.requires:
             for nm, g in c.requires(cx):
@@ -424,6 +426,13 @@ def prove_function(world, make_models, contract, timeout_ms=None, arg_terms_out=
             outcome, val = 'raise', pr.exc
         cxe = Cx(ctx, args, ctx.heap0, ctx.heap, val if outcome == 'return' else None,
                  exc=val if outcome == 'raise' else None)
+        cxe.arg0 = arg0
+        # in-place mutation of a container argument the contract does not list is a frame violation
+        for n, t0 in arg0.items():
+            if n not in c.mutates:
+                now = args[n].terms()
+                if any(not a.eq(b) for a, b in zip(now, t0)):
+                    ctx.oblige('frame:argument-%s-not-mutated' % n, z3.And([a == b for a, b in zip(now, t0)]), kind='frame')
         if outcome == 'return':
             if c.ensures:
                 for nm, g in c.ensures(cxe):
@@ -432,7 +441,8 @@ def prove_function(world, make_models, contract, timeout_ms=None, arg_terms_out=
                 # returning normally is only allowed when no exception was mandatory
                 pass
         else:
-            if getattr(val, 'implicit', False) and not issubclass(val.cls, tuple(getattr(c, 'allow_implicit', ()) or (type(None),))):
+            named = tuple(k for k in c.raises if k not in (Exception, BaseException))
+            if getattr(val, 'implicit', False) and not issubclass(val.cls, tuple(getattr(c, 'allow_implicit', ()) or (type(None),)) + named):
                 # raised by a primitive of the function's own body (None attribute, index, key, type
                 # error ...), not by a callee: never covered by a blanket `raises Exception`
                 ctx.oblige('no-implicit-exception:%s' % val.cls.__name__, z3.BoolVal(False), kind='raises')
